@@ -272,6 +272,31 @@ pub fn sites(tier: Tier) -> Vec<Site> {
                 acc.nontrivial();
             }));
     }
+    // what an identifier decodes to is a matter of its four bytes, not of what the application did with such a value before:
+    // every corpus value put into an allowed-mods list as a mod (insert, remove, clear), then its bytes decoded
+    {
+        let vals = short_read_values();
+        let alone: Vec<String> = vals.iter().map(|v| format!("{:?}", Vehicle::read_le(&mut Cursor::new(&v.to_le_bytes()[..])).map_err(|_| ()))).collect();
+        let (vals, alone) = (std::sync::Arc::new(vals), std::sync::Arc::new(alone));
+        let n = vals.len() as u64 * 3;
+        s.push(Site::new("decode-after-mutators", n,
+            "every corpus value inserted into an IS_MAL as a mod id {and left there, and removed again, and cleared}, then the same four bytes decoded (alone and inside IS_SLC): the result is the one the bytes had before",
+            move |i, acc| {
+                acc.eval();
+                let k = (i / 3) as usize;
+                let v = vals[k];
+                let _ = guard(|| {
+                    let mut m = insim::insim::Mal::default();
+                    let _ = m.insert(Vehicle::Mod(v));
+                    match i % 3 { 1 => { let _ = m.remove(&Vehicle::Mod(v)); }, 2 => m.clear(), _ => {} }
+                    let _ = insim::net::Codec::new(insim::net::Mode::Compressed).encode(&insim::Packet::Mal(m));
+                });
+                let got = guard(|| format!("{:?}", Vehicle::read_le(&mut Cursor::new(&v.to_le_bytes()[..])).map_err(|_| ())));
+                if got.as_deref() != Ok(alone[k].as_str()) {
+                    acc.violate(i, "C13|decode-depends-on-earlier-mutator-calls".into(), format!("{} decodes to {got:?} after a MAL had held it as a mod id; before: {}", crate::report::hex(&v.to_le_bytes()), alone[k]), json!({"site": "decode-after-mutators", "index": i}));
+                } else { acc.class("decode-independent-of-mutators"); acc.nontrivial(); }
+            }));
+    }
     // no memory between threads either: histories of 2 and 3 decodes / encodes spread over two threads
     {
         let mut corpus: Vec<(String, [u8; 4])> = vec![];
